@@ -28,6 +28,19 @@ pub fn small_basic(data_cells: usize) -> Basic {
     BasicGarnishData::new_with_settings(s(2), s(2), s(2), s(1), s(data_cells), s(0), NoOpCompanion::new()).unwrap()
 }
 
+/// every block: initial size 1, multiplicative growth x2 (1 -> 2 -> 4 -> 8)
+#[cfg(kani)]
+pub fn small_basic_x2() -> Basic {
+    use garnish_lang_simple_data::{ReallocationStrategy, StorageSettings};
+    let s = || StorageSettings::new(1, usize::MAX, ReallocationStrategy::Multiplicative(2));
+    BasicGarnishData::new_with_settings(s(), s(), s(), s(), s(), s(), NoOpCompanion::new()).unwrap()
+}
+
+#[cfg(not(kani))]
+pub fn small_basic_x2() -> Basic {
+    BasicGarnishData::new(NoOpCompanion::new()).unwrap()
+}
+
 #[cfg(not(kani))]
 pub fn small_basic(_data_cells: usize) -> Basic {
     BasicGarnishData::new(NoOpCompanion::new()).unwrap()
@@ -262,8 +275,8 @@ pub fn simple_list_unkeyed_kf<N: Nondet>(n: &mut N) {
 /// C15 (store level, BasicGarnishData): values of every scalar kind pushed into a data block that has to grow
 /// (initial size SMALL) read back with the same type and content; instructions and jump entries pushed in
 /// between (their blocks grow too) do not disturb them.
-pub fn basic_readback<N: Nondet>(n: &mut N) {
-    let mut d = small_basic(2);
+pub fn basic_readback<N: Nondet, const MULTIPLICATIVE: bool>(n: &mut N) {
+    let mut d = if MULTIPLICATIVE { small_basic_x2() } else { small_basic(2) };
     let (a, b, c) = (n.i32(), n.u64(), n.u8());
     let x = d.add_number(SimpleNumber::Integer(a)).unwrap();
     d.push_to_jump_table(7).unwrap();
